@@ -249,18 +249,29 @@ func init() {
 }
 
 // values that cannot be represented: reference cycles and non-finite floats must give an error - never a crash, never a value
-var c09Unrepresentable = []string{
-	"a = []; a.push(a); a",
-	"a = [1]; b = [a]; a.push(b); a",
-	"dd = {}; dd.x = dd; dd",
-	"dd = {}; dd['k'] = [dd]; dd",
-	"dd = {}; ee = {'p': dd}; dd.q = ee; ee",
-	"a = []; dd = {'l': a}; a.push(dd); a",
-	"x = 2.0 ** 1024; x",
-	"x = [1, 2.0 ** 1024]; x",
-	"x = {'k': (2.0 ** 1024) - (2.0 ** 1024)}; x",
-	"x = 0 - (2.0 ** 1024); x",
-}
+// unrepresentable atoms x every place a value can sit in: each script leaves the enclosing value in Ret and in the variables
+var c09Unrepresentable = func() []string {
+	atoms := []struct{ setup, expr string }{
+		{"ua = []; ua.push(ua)", "ua"},
+		{"ua = [1]; ub = [ua]; ua.push(ub)", "ua"},
+		{"ud = {}; ud.x = ud", "ud"},
+		{"ud = {}; ud['k'] = [ud]", "ud"},
+		{"ud = {}; ue = {'p': ud}; ud.q = ue", "ue"},
+		{"ua = []; ud = {'l': ua}; ua.push(ud)", "ua"},
+		{"uf = 2.0 ** 1024", "uf"},
+		{"uf = (2.0 ** 1024) - (2.0 ** 1024)", "uf"},
+		{"uf = 0 - (2.0 ** 1024)", "uf"},
+	}
+	places := []string{"x = %s; x", "x = [1, %s]; x", "x = {'k': %s}; x", "x = [[0], {'k': [2, %s]}]; x", "&x = this.at; &x.at = %s; &x", "&x = 1; &x.at = [1, {'k': %s}]; &x",
+		"&cv = 2; &cv.at = %s; x = [&cv]; x", "&cv = 2; &cv.at = %s; x = {'held': [&cv, 1]}; x", "&in1 = 3; &in1.at = %s; &x = 4; &x.held = &in1; &x"}
+	var out []string
+	for _, a := range atoms {
+		for _, pl := range places {
+			out = append(out, a.setup+"; "+fmt.Sprintf(pl, a.expr))
+		}
+	}
+	return out
+}()
 
 func init() {
 	subcmds["c09-cycles"] = func(args []string) int {
